@@ -175,6 +175,27 @@ fn encode<'t, T>(
     use crate::token::LeafKind::{Class, Literal, Separator, Wildcard};
     use crate::token::Wildcard::{One, Tree, ZeroOrMore};
 
+    // Composes the position of a branch token with the position of the branches that contain
+    // it. Tokens in a branch only begin (or end) the expression if every branch that contains
+    // them does too.
+    fn superpose(superposition: Option<Position>, position: Position) -> Position {
+        match superposition {
+            None => position,
+            Some(superposition) => {
+                let is_first =
+                    matches!(superposition, First | Only) && matches!(position, First | Only);
+                let is_last =
+                    matches!(superposition, Last | Only) && matches!(position, Last | Only);
+                match (is_first, is_last) {
+                    (true, true) => Only,
+                    (true, false) => First,
+                    (false, true) => Last,
+                    (false, false) => Middle,
+                }
+            },
+        }
+    }
+
     fn encode_intermediate_tree(grouping: Grouping, pattern: &mut String) {
         pattern.push_str(sepexpr!("(?:{0}|{0}"));
         grouping.push_str(pattern, sepexpr!("(?s:.*){0}"));
@@ -295,7 +316,7 @@ fn encode<'t, T>(
                             pattern.push_str("(?:");
                             encode::<Token<_>>(
                                 Grouping::NonCapture,
-                                superposition.or(Some(position)),
+                                Some(superpose(superposition, position)),
                                 &mut pattern,
                                 token,
                             );
@@ -313,7 +334,7 @@ fn encode<'t, T>(
                         pattern.push_str("(?:");
                         encode::<Token<_>>(
                             Grouping::NonCapture,
-                            superposition.or(Some(position)),
+                            Some(superpose(superposition, position)),
                             &mut pattern,
                             repetition.token(),
                         );
